@@ -343,7 +343,15 @@ func c17Scenario(r *sim.Run) {
 			if x == nil {
 				return
 			}
-			switch tp.Choose("reg-event", 4) {
+			var mut func(*pb.C2SWrapper)
+			switch tp.Choose("reg-event", 5) {
+			case 4:
+				// the registrar's response carries an IPv4-mapped address in its IPv6 override field:
+				// for an IPv6 registrant the station refuses ("IPv6 client chose IPv4 phantom") and logs why
+				mut = func(wr *pb.C2SWrapper) {
+					wr.RegistrationResponse = &pb.RegistrationResponse{Ipv6Addr: net.IPv4(192, 0, 2, 55).To16()}
+				}
+				r.Probe("reg_mapped_override")
 			case 0:
 				x.covert = "10.1.2.3:443" // forbidden by the covert blocklist
 				r.Probe("reg_forbidden_covert")
@@ -359,7 +367,7 @@ func c17Scenario(r *sim.Run) {
 				x.covert = "not an address"
 				r.Probe("reg_malformed_covert")
 			}
-			w.register(x.regMessage(nil))
+			w.register(x.regMessage(mut))
 			w.mu.Lock()
 			w.live = map[string]bool{}
 			w.mu.Unlock()
